@@ -136,6 +136,33 @@ pub fn straddle_inputs(dense: bool) -> Vec<Input> {
         }
     }
     v.extend(mirror_probe_inputs());
+    v.extend(lazy_resave_edge_inputs());
+    v
+}
+
+/// A lazy-matching step that emits the previous byte as a literal and re-saves a longer match,
+/// placed at every offset around the size at which the compressor cuts a block that is not
+/// compressing (31 KiB): L incompressible bytes (holding "ZAB#" and "#ABCDEFGH" 1.7 KB back), then
+/// "ZABCDEFGH" (a 3-byte match "ZAB", superseded one byte later by the 8-byte match "ABCDEFGH"),
+/// then 60 incompressible bytes (a following block small enough to be emitted stored).
+pub fn lazy_resave_edge_inputs() -> Vec<Input> {
+    let mut v = vec![];
+    for l in 31_736usize..=31_752 {
+        let mut d = shape_named("x", &[(Seg::R, l + 60)]).data;
+        // the filler must not contain the phrases by accident
+        for i in 0..d.len() {
+            if d[i] == b'Z' || d[i] == b'#' {
+                d[i] = 0x80;
+            }
+        }
+        let tail = d.split_off(l);
+        // (near enough for a 3-byte match to be kept: the compressor drops those from 8 KiB on)
+        d[l - 1744..l - 1740].copy_from_slice(b"ZAB#");
+        d[l - 1644..l - 1635].copy_from_slice(b"#ABCDEFGH");
+        d.extend_from_slice(b"ZABCDEFGH");
+        d.extend_from_slice(&tail);
+        v.push(Input { name: format!("lazy-resave:L{}", l), data: d });
+    }
     v
 }
 
